@@ -1030,8 +1030,8 @@ def genericize(text, gtypes, impl_header=False):
                 else:
                     ins.append((t.e, '<%s: %s>' % (P, B)))
                 continue
-            if nxt == '{' and not impl_header:
-                raise ExtractError('struct literal of generic type %s not supported' % T)
+            if nxt == '{' and not impl_header and prev not in ('->', ':', '&', 'mut', '<', ',', 'for', 'dyn', 'impl', 'as'):
+                continue  # struct literal / pattern `T { .. }`: the parameter is inferred
             if nxt == '<':
                 c = _angle_close(toks, i + 1)
                 ins.append((toks[c].s, ', %s' % P))
